@@ -1,14 +1,19 @@
-//@ unit i_bits : BigInt &=, |=, ^= : representation invariant (canonical magnitude, NoSign <=> 0) after every sign case (src/bigint/bits.rs)
+//@ unit i_bits : BigInt &=, |=, ^= : every bit of the result is the operation on the operands' infinite two's-complement expansions; representation invariant after every sign case (src/bigint/bits.rs)
 #![feature(allocator_api)]
 use vstd::prelude::*;
 use vstd::std_specs::iter::IteratorSpec;
 use vstd::std_specs::ops::*;
-use core::ops::{BitAndAssign, BitOrAssign, BitXorAssign, Neg};
+use core::ops::{BitAndAssign, BitOrAssign, BitXorAssign, BitAnd, BitOr, BitXor, Neg, Not, AddAssign, SubAssign, Add, Sub};
+use core::cmp::Ordering;
+use vstd::arithmetic::power2::pow2;
 verus! {
 //@ include prelude/core.rs
 //@ include prelude/std_specs.rs
+//@ include prelude/panic.rs
 //@ include prelude/bitdigits.rs
 //@ include prelude/val32.rs
+//@ include prelude/bitval.rs
+//@ include prelude/twos.rs
 //@ extract src/bigint.rs :: enum Sign attrs=1
 #[derive(/*+*/Structural, /*-*/PartialEq, PartialOrd, Eq, Ord, Copy, Clone, Debug, Hash)]
 pub enum Sign {
@@ -54,6 +59,17 @@ impl BigUint {
         &mut self.data
     }
 //@ end
+//@ extract src/biguint.rs :: impl IntDigits for BigUint :: fn len props=C04 label=biguint_len
+    fn len(&self) -> /*+*/(r: /*-*/usize/*+*/)/*-*/
+//+{
+        ensures r == self.data@.len()
+//+}
+    {
+        self.data.len()
+    }
+//@ end
+//@ stub u_bitq/trailing_zeros
+//@ stub u_bitq/bit
     //@ assume BigUint::clone_from : `self.data.clone_from(&other.data)` (Vec::clone_from has no vstd spec); contract: becomes a copy
     #[verifier::external_body]
     fn clone_from(&mut self, other: &Self)
@@ -93,36 +109,73 @@ pub struct BigInt {
 //@ end
 //@ include prelude/bigint_view.rs
 
-// the nine two's-complement digit routines: bodies not under contract here (their effect on the VALUE is C07's
-// business and is not decided); what this unit needs from them is nothing at all -- the invariant is re-established
-// by the caller's normalize().
-//@ assume bitand_pos_neg : digit routine, no postcondition assumed
-#[verifier::external_body]
-fn bitand_pos_neg(a: &mut [BigDigit], b: &[BigDigit]) { unimplemented!() }
-//@ assume bitand_neg_pos : digit routine, no postcondition assumed
-#[verifier::external_body]
-fn bitand_neg_pos(a: &mut Vec<BigDigit>, b: &[BigDigit]) { unimplemented!() }
-//@ assume bitand_neg_neg : digit routine, no postcondition assumed
-#[verifier::external_body]
-fn bitand_neg_neg(a: &mut Vec<BigDigit>, b: &[BigDigit]) { unimplemented!() }
-//@ assume bitor_pos_neg : digit routine, no postcondition assumed
-#[verifier::external_body]
-fn bitor_pos_neg(a: &mut Vec<BigDigit>, b: &[BigDigit]) { unimplemented!() }
-//@ assume bitor_neg_pos : digit routine, no postcondition assumed
-#[verifier::external_body]
-fn bitor_neg_pos(a: &mut [BigDigit], b: &[BigDigit]) { unimplemented!() }
-//@ assume bitor_neg_neg : digit routine, no postcondition assumed
-#[verifier::external_body]
-fn bitor_neg_neg(a: &mut Vec<BigDigit>, b: &[BigDigit]) { unimplemented!() }
-//@ assume bitxor_pos_neg : digit routine, no postcondition assumed
-#[verifier::external_body]
-fn bitxor_pos_neg(a: &mut Vec<BigDigit>, b: &[BigDigit]) { unimplemented!() }
-//@ assume bitxor_neg_pos : digit routine, no postcondition assumed
-#[verifier::external_body]
-fn bitxor_neg_pos(a: &mut Vec<BigDigit>, b: &[BigDigit]) { unimplemented!() }
-//@ assume bitxor_neg_neg : digit routine, no postcondition assumed
-#[verifier::external_body]
-fn bitxor_neg_neg(a: &mut Vec<BigDigit>, b: &[BigDigit]) { unimplemented!() }
+pub mod big_digit {
+    use vstd::prelude::*;
+    pub type BigDigit = u64;
+    pub type DoubleBigDigit = u128;
+//@ extract src/lib.rs :: mod big_digit :: const BITS
+    pub(crate) const BITS: u8 = BigDigit::BITS as u8;
+//@ end
+}
+pub open spec fn p2(k: nat) -> nat { pow2(k) }
+impl AddAssignSpecImpl<u32> for BigUint {
+    open spec fn obeys_add_assign_spec() -> bool { false }
+    open spec fn add_assign_req(&self, rhs: u32) -> bool { self.wf() }
+    open spec fn add_assign_spec(&self, rhs: u32) -> &BigUint { arbitrary() }
+}
+impl AddAssign<u32> for BigUint {
+//@ stub u_scalar/add_assign_u32
+}
+impl SubAssignSpecImpl<u32> for BigUint {
+    open spec fn obeys_sub_assign_spec() -> bool { false }
+    open spec fn sub_assign_req(&self, rhs: u32) -> bool { self.wf() && (!mp() ==> self.v() >= rhs as nat) }
+    open spec fn sub_assign_spec(&self, rhs: u32) -> &BigUint { arbitrary() }
+}
+impl SubAssign<u32> for BigUint {
+//@ stub u_scalar/sub_assign_u32
+}
+use self::big_digit::DoubleBigDigit;
+// the nine two's-complement digit routines, digit-exact contracts proved in unit k_twos
+//@ stub k_twos/bitand_pos_neg
+//@ stub k_twos/bitand_neg_pos
+//@ stub k_twos/bitand_neg_neg
+//@ stub k_twos/bitor_pos_neg
+//@ stub k_twos/bitor_neg_pos
+//@ stub k_twos/bitor_neg_neg
+//@ stub k_twos/bitxor_pos_neg
+//@ stub k_twos/bitxor_neg_pos
+//@ stub k_twos/bitxor_neg_neg
+
+/// both operands non-negative: the digit-wise contract of the BigUint operators, read bit by bit
+pub proof fn lemma_pp(op: int, r: Seq<u64>, a: Seq<u64>, b: Seq<u64>)
+    requires 0 <= op <= 2, forall|i: int| 0 <= i ==> #[trigger] dig(r, i) == dop(op, dig(a, i), dig(b, i))
+    ensures bits_rel(op, val(r) as int, val(a) as int, val(b) as int)
+{
+    assert forall|i: nat| dig(r, i as int) == dop(op, #[trigger] sdig(false, a, i), sdig(false, b, i)) by {
+        assert(dig(r, i as int) == dop(op, dig(a, i as int), dig(b, i as int)));
+    }
+    lemma_pos_result(op, r, false, a, false, b);
+}
+
+/// the same for an unnamed BigUint temporary
+pub proof fn lemma_pp_all(op: int, a: BigUint, b: BigUint)
+    requires 0 <= op <= 2
+    ensures forall|r: BigUint| (forall|i: int| 0 <= i ==> #[trigger] dig(r.dg(), i) == dop(op, dig(a.dg(), i), dig(b.dg(), i)))
+        ==> bits_rel(op, #[trigger] r.v() as int, a.v() as int, b.v() as int)
+{
+    assert forall|r: BigUint| (forall|i: int| 0 <= i ==> #[trigger] dig(r.dg(), i) == dop(op, dig(a.dg(), i), dig(b.dg(), i)))
+        implies bits_rel(op, #[trigger] r.v() as int, a.v() as int, b.v() as int) by {
+        lemma_pp(op, r.dg(), a.dg(), b.dg());
+    }
+}
+
+/// 0 op y and x op 0
+pub proof fn lemma_with_zero(op: int, y: int)
+    requires 0 <= op <= 2
+    ensures bits_rel(0, 0, 0, y), bits_rel(0, 0, y, 0), bits_rel(1, y, 0, y), bits_rel(1, y, y, 0), bits_rel(2, y, 0, y), bits_rel(2, y, y, 0)
+{
+    assert forall|k: nat| !(#[trigger] ibit(0, k)) by { lemma_ibit_zero(k); }
+}
 
 impl BigInt {
 //@ stub i_core/set_zero
@@ -178,29 +231,52 @@ impl BitAndAssign<&BigInt> for BigInt {
 //@ extract src/bigint/bits.rs :: impl BitAndAssign<&BigInt> for BigInt :: fn bitand_assign props=C04,C07 label=bigint_bitand_assign
     fn bitand_assign(&mut self, other: &BigInt)
 //+{
-        ensures final(self).wfi()
+        ensures final(self).wfi(), bits_rel(0, final(self).iv(), old(self).iv(), other.iv())
 //+}
     {
+//+{
+        let ghost a0 = self.data.dg();
+        let ghost b = other.data.dg();
+        proof {
+            lemma_sgn_mul(self.sign, self.data.v()); lemma_sgn_mul(other.sign, other.data.v());
+            lemma_with_zero(0, other.iv()); lemma_with_zero(0, self.iv());
+        }
+//+}
         match (self.sign, other.sign) {
             (NoSign, _) => {}
             (_, NoSign) => self.set_zero(),
             (Plus, Plus) => {
                 self.data &= &other.data;
+//+{
+                proof { lemma_pp(0, self.data.dg(), a0, b); }
+//+}
                 if self.data.is_zero() {
                     self.sign = NoSign;
                 }
+//+{
+                proof { lemma_sgn_mul(self.sign, self.data.v()); }
+//+}
             }
             (Plus, Minus) => {
                 bitand_pos_neg(self.digits_mut(), other.digits());
+//+{
+                proof { lemma_case(0, self.data.dg(), false, a0, true, b, a0.len()); }
+//+}
                 self.normalize();
             }
             (Minus, Plus) => {
                 bitand_neg_pos(self.digits_mut(), other.digits());
+//+{
+                proof { lemma_case(0, self.data.dg(), true, a0, false, b, b.len()); }
+//+}
                 self.sign = Plus;
                 self.normalize();
             }
             (Minus, Minus) => {
                 bitand_neg_neg(self.digits_mut(), other.digits());
+//+{
+                proof { lemma_case(0, self.data.dg(), true, a0, true, b, if a0.len() >= b.len() { a0.len() } else { b.len() }); }
+//+}
                 self.normalize();
             }
         }
@@ -212,27 +288,42 @@ impl BitOrAssign<&BigInt> for BigInt {
 //@ extract src/bigint/bits.rs :: impl BitOrAssign<&BigInt> for BigInt :: fn bitor_assign props=C04,C07 label=bigint_bitor_assign
     fn bitor_assign(&mut self, other: &BigInt)
 //+{
-        ensures final(self).wfi()
+        ensures final(self).wfi(), bits_rel(1, final(self).iv(), old(self).iv(), other.iv())
 //+}
     {
 //+{
-        proof { if self.data.dg().len() > 0 { lemma_wf_lower(self.data.dg()); } }
+        let ghost a0 = self.data.dg();
+        let ghost b = other.data.dg();
+        proof {
+            if self.data.dg().len() > 0 { lemma_wf_lower(self.data.dg()); }
+            lemma_sgn_mul(self.sign, self.data.v()); lemma_sgn_mul(other.sign, other.data.v());
+            lemma_with_zero(1, other.iv()); lemma_with_zero(1, self.iv());
+        }
 //+}
         match (self.sign, other.sign) {
             (_, NoSign) => {}
             (NoSign, _) => self.clone_from(other),
-            (Plus, Plus) => /*+*/{ /*-*/self.data |= &other.data/*+*/; proof { lemma_or_nonzero(old(self).data.dg(), other.data.dg(), self.data.dg()); } }/*-*/,
+            (Plus, Plus) => /*+*/{ /*-*/self.data |= &other.data/*+*/; proof { lemma_or_nonzero(old(self).data.dg(), other.data.dg(), self.data.dg()); lemma_pp(1, self.data.dg(), a0, b); lemma_sgn_mul(self.sign, self.data.v()); } }/*-*/,
             (Plus, Minus) => {
                 bitor_pos_neg(self.digits_mut(), other.digits());
+//+{
+                proof { lemma_case(1, self.data.dg(), false, a0, true, b, b.len()); }
+//+}
                 self.sign = Minus;
                 self.normalize();
             }
             (Minus, Plus) => {
                 bitor_neg_pos(self.digits_mut(), other.digits());
+//+{
+                proof { lemma_case(1, self.data.dg(), true, a0, false, b, a0.len()); }
+//+}
                 self.normalize();
             }
             (Minus, Minus) => {
                 bitor_neg_neg(self.digits_mut(), other.digits());
+//+{
+                proof { lemma_case(1, self.data.dg(), true, a0, true, b, if a0.len() <= b.len() { a0.len() } else { b.len() }); }
+//+}
                 self.normalize();
             }
         }
@@ -244,35 +335,402 @@ impl BitXorAssign<&BigInt> for BigInt {
 //@ extract src/bigint/bits.rs :: impl BitXorAssign<&BigInt> for BigInt :: fn bitxor_assign props=C04,C07 label=bigint_bitxor_assign
     fn bitxor_assign(&mut self, other: &BigInt)
 //+{
-        ensures final(self).wfi()
+        ensures final(self).wfi(), bits_rel(2, final(self).iv(), old(self).iv(), other.iv())
 //+}
     {
+//+{
+        let ghost a0 = self.data.dg();
+        let ghost b = other.data.dg();
+        proof {
+            lemma_sgn_mul(self.sign, self.data.v()); lemma_sgn_mul(other.sign, other.data.v());
+            lemma_with_zero(2, other.iv()); lemma_with_zero(2, self.iv());
+        }
+//+}
         match (self.sign, other.sign) {
             (_, NoSign) => {}
             (NoSign, _) => self.clone_from(other),
             (Plus, Plus) => {
                 self.data ^= &other.data;
+//+{
+                proof { lemma_pp(2, self.data.dg(), a0, b); }
+//+}
                 if self.data.is_zero() {
                     self.sign = NoSign;
                 }
+//+{
+                proof { lemma_sgn_mul(self.sign, self.data.v()); }
+//+}
             }
             (Plus, Minus) => {
                 bitxor_pos_neg(self.digits_mut(), other.digits());
+//+{
+                proof { lemma_case(2, self.data.dg(), false, a0, true, b, if a0.len() >= b.len() { a0.len() } else { b.len() }); }
+//+}
                 self.sign = Minus;
                 self.normalize();
             }
             (Minus, Plus) => {
                 bitxor_neg_pos(self.digits_mut(), other.digits());
+//+{
+                proof { lemma_case(2, self.data.dg(), true, a0, false, b, if a0.len() >= b.len() { a0.len() } else { b.len() }); }
+//+}
                 self.normalize();
             }
             (Minus, Minus) => {
                 bitxor_neg_neg(self.digits_mut(), other.digits());
+//+{
+                proof { lemma_case(2, self.data.dg(), true, a0, true, b, if a0.len() >= b.len() { a0.len() } else { b.len() }); }
+//+}
                 self.sign = Plus;
                 self.normalize();
             }
         }
     }
 //@ end
+}
+
+impl BigInt {
+//@ stub i_core/is_negative
+//@ extract src/bigint.rs :: impl IntDigits for BigInt :: fn len props=C04 label=bigint_len
+    fn len(&self) -> /*+*/(r: /*-*/usize/*+*/)/*-*/
+//+{
+        ensures r == self.data.dg().len()
+//+}
+    {
+        self.data.len()
+    }
+//@ end
+
+//@ extract src/bigint.rs :: impl BigInt :: fn bit rules=R0,R0p,R16v props=C07 label=bigint_bit
+    pub fn bit(&self, bit: u64) -> /*+*/(r: /*-*/bool/*+*/)/*-*/
+//+{
+        requires self.wfi()
+        ensures r == ibit(self.iv(), bit as nat)
+//+}
+    {
+//+{
+        proof {
+            lemma_sgn_mul(self.sign, self.data.v());
+            axiom_vec_u64_len(&self.data.data);
+            let m = self.data.v();
+            let n = self.data.dg().len();
+            lemma_valp_bound(self.data.dg(), n);
+            if self.sign == Minus {
+                if bit as nat >= 64 * n { lemma_ibit_high(-(m as int), n, bit as nat); }
+            }
+        }
+//+}
+        if self.is_negative() {
+            // Let the binary representation of a number be
+            //   ... 0  x 1 0 ... 0
+            // Then the two's complement is
+            //   ... 1 !x 1 0 ... 0
+            // where !x is obtained from x by flipping each bit
+            if bit >= u64::from(big_digit::BITS) * self.len() as u64 {
+                true
+            } else {
+                let trailing_zeros = self.data.trailing_zeros().unwrap();
+//+{
+                proof { lemma_neg_bit(self.data.v(), trailing_zeros as nat, bit as nat); }
+//+}
+                match __u64_cmp(bit, trailing_zeros) {
+                    Ordering::Less => false,
+                    Ordering::Equal => true,
+                    Ordering::Greater => !self.data.bit(bit),
+                }
+            }
+        } else {
+            self.data.bit(bit)
+        }
+    }
+//@ end
+}
+
+impl NotSpecImpl for BigInt {
+    open spec fn obeys_not_spec() -> bool { false }
+    open spec fn not_req(self) -> bool { self.wfi() }
+    open spec fn not_spec(self) -> BigInt { arbitrary() }
+}
+impl Not for BigInt {
+    type Output = BigInt;
+//@ extract src/bigint.rs :: impl Not for BigInt :: fn not rules=R0,R5 props=C07,C04 label=bigint_not
+    fn not(self) -> /*+*/(r: /*-*/BigInt/*+*/)/*-*/
+//+{
+        ensures r.wfi(), r.iv() == -self.iv() - 1, forall|k: nat| #[trigger] ibit(r.iv(), k) == !ibit(self.iv(), k)
+//+}
+    {
+//+{
+        proof {
+            lemma_sgn_mul(self.sign, self.data.v());
+            assert forall|k: nat| #[trigger] ibit(-self.iv() - 1, k) == !ibit(self.iv(), k) by { lemma_compl(self.iv(), k); }
+        }
+//+}
+        let mut self__ = self;
+        match self__.sign {
+            NoSign | Plus => {
+                self__.data += 1u32;
+                self__.sign = Minus;
+            }
+            Minus => {
+                self__.data -= 1u32;
+                self__.sign = if self__.data.is_zero() { NoSign } else { Plus };
+            }
+        }
+//+{
+        proof { lemma_sgn_mul(self__.sign, self__.data.v()); }
+//+}
+        self__
+    }
+//@ end
+}
+
+impl BitAndSpecImpl<&BigInt> for BigInt {
+    open spec fn obeys_bitand_spec() -> bool { false }
+    open spec fn bitand_req(self, rhs: &BigInt) -> bool { self.wfi() && rhs.wfi() }
+    open spec fn bitand_spec(self, rhs: &BigInt) -> BigInt { arbitrary() }
+}
+impl BitAnd<&BigInt> for BigInt {
+    type Output = BigInt;
+//@ extract src/bigint/bits.rs :: impl BitAnd<&BigInt> for BigInt :: fn bitand rules=R0,R5 props=C07,C10 label=bigint_bitand_val_ref
+    fn bitand(self, other: &BigInt) -> /*+*/(r: /*-*/BigInt/*+*/)/*-*/
+//+{
+        ensures r.wfi(), bits_rel(0, r.iv(), self.iv(), other.iv())
+//+}
+    {
+        let mut self__ = self;
+        self__ &= other;
+        self__
+    }
+//@ end
+}
+
+impl BitOrSpecImpl<&BigInt> for BigInt {
+    open spec fn obeys_bitor_spec() -> bool { false }
+    open spec fn bitor_req(self, rhs: &BigInt) -> bool { self.wfi() && rhs.wfi() }
+    open spec fn bitor_spec(self, rhs: &BigInt) -> BigInt { arbitrary() }
+}
+impl BitOr<&BigInt> for BigInt {
+    type Output = BigInt;
+//@ extract src/bigint/bits.rs :: impl BitOr<&BigInt> for BigInt :: fn bitor rules=R0,R5 props=C07,C10 label=bigint_bitor_val_ref
+    fn bitor(self, other: &BigInt) -> /*+*/(r: /*-*/BigInt/*+*/)/*-*/
+//+{
+        ensures r.wfi(), bits_rel(1, r.iv(), self.iv(), other.iv())
+//+}
+    {
+        let mut self__ = self;
+        self__ |= other;
+        self__
+    }
+//@ end
+}
+
+impl BitXorSpecImpl<&BigInt> for BigInt {
+    open spec fn obeys_bitxor_spec() -> bool { false }
+    open spec fn bitxor_req(self, rhs: &BigInt) -> bool { self.wfi() && rhs.wfi() }
+    open spec fn bitxor_spec(self, rhs: &BigInt) -> BigInt { arbitrary() }
+}
+impl BitXor<&BigInt> for BigInt {
+    type Output = BigInt;
+//@ extract src/bigint/bits.rs :: impl BitXor<&BigInt> for BigInt :: fn bitxor rules=R0,R5 props=C07,C10 label=bigint_bitxor_val_ref
+    fn bitxor(self, other: &BigInt) -> /*+*/(r: /*-*/BigInt/*+*/)/*-*/
+//+{
+        ensures r.wfi(), bits_rel(2, r.iv(), self.iv(), other.iv())
+//+}
+    {
+        let mut self__ = self;
+        self__ ^= other;
+        self__
+    }
+//@ end
+}
+
+impl BitAndSpecImpl<&BigUint> for &BigUint {
+    open spec fn obeys_bitand_spec() -> bool { false }
+    open spec fn bitand_req(self, rhs: &BigUint) -> bool { true }
+    open spec fn bitand_spec(self, rhs: &BigUint) -> BigUint { arbitrary() }
+}
+impl BitAnd<&BigUint> for &BigUint {
+    type Output = BigUint;
+//@ stub u_bits/bitand_ref_ref
+}
+impl BitOrSpecImpl<&BigUint> for &BigUint {
+    open spec fn obeys_bitor_spec() -> bool { false }
+    open spec fn bitor_req(self, rhs: &BigUint) -> bool { self.wf() && rhs.wf() }
+    open spec fn bitor_spec(self, rhs: &BigUint) -> BigUint { arbitrary() }
+}
+impl BitOr<&BigUint> for &BigUint {
+    type Output = BigUint;
+    //@ assume BigUint:BitOr<&BigUint>for&BigUint : forward_all_binop_to_val_ref_commutative! forwarder (engine F) to BitOr<&BigUint> for BigUint (proved in u_bits)
+    #[verifier::external_body]
+    fn bitor(self, other: &BigUint) -> (r: BigUint)
+        ensures r.wf(), forall|i: int| 0 <= i ==> dig(r.dg(), i) == dig(self.dg(), i) | dig(other.dg(), i),
+    { unimplemented!() }
+}
+impl AddSpecImpl<u32> for &BigUint {
+    open spec fn obeys_add_spec() -> bool { false }
+    open spec fn add_req(self, rhs: u32) -> bool { self.wf() }
+    open spec fn add_spec(self, rhs: u32) -> BigUint { arbitrary() }
+}
+impl Add<u32> for &BigUint {
+    type Output = BigUint;
+    //@ assume BigUint:Add<u32>for&BigUint : forward_all_scalar_binop_to_val_val_commutative! forwarder (engine F) to Add<u32> for BigUint (proved in u_scalar)
+    #[verifier::external_body]
+    fn add(self, other: u32) -> (r: BigUint) ensures r.wf(), r.v() == self.v() + other as nat { unimplemented!() }
+}
+impl SubSpecImpl<u32> for &BigUint {
+    open spec fn obeys_sub_spec() -> bool { false }
+    open spec fn sub_req(self, rhs: u32) -> bool { self.wf() && (!mp() ==> self.v() >= rhs as nat) }
+    open spec fn sub_spec(self, rhs: u32) -> BigUint { arbitrary() }
+}
+impl Sub<u32> for &BigUint {
+    type Output = BigUint;
+    //@ assume BigUint:Sub<u32>for&BigUint : forward_all_scalar_binop_to_val_val! forwarder (engine F) to Sub<u32> for BigUint (proved in u_scalar)
+    #[verifier::external_body]
+    fn sub(self, other: u32) -> (r: BigUint) ensures mp() ==> self.v() >= other as nat, r.wf(), r.v() + other as nat == self.v() { unimplemented!() }
+}
+impl vstd::std_specs::convert::FromSpecImpl<BigUint> for BigInt {
+    open spec fn obeys_from_spec() -> bool { false }
+    open spec fn from_spec(v: BigUint) -> BigInt { arbitrary() }
+}
+impl From<BigUint> for BigInt {
+//@ stub i_div/from_biguint_trait
+}
+impl NegSpecImpl for BigInt {
+    open spec fn obeys_neg_spec() -> bool { false }
+    open spec fn neg_req(self) -> bool { true }
+    open spec fn neg_spec(self) -> BigInt { arbitrary() }
+}
+impl Neg for BigInt {
+    type Output = BigInt;
+//@ stub i_core/bigint_neg
+}
+impl BigInt {
+//@ extract src/bigint.rs :: impl BigInt :: const ZERO rules=R9,R13
+    exec const ZERO: Self /*+*/ensures Self::ZERO.wfi(), Self::ZERO.iv() == 0 /*-*/{ BigInt {
+        sign: NoSign,
+        data: BigUint::ZERO,
+    } }
+//@ end
+//@ stub i_core/clone
+//@ stub i_core/one
+}
+
+impl BitAndSpecImpl<&BigInt> for &BigInt {
+    open spec fn obeys_bitand_spec() -> bool { false }
+    open spec fn bitand_req(self, rhs: &BigInt) -> bool { self.wfi() && rhs.wfi() }
+    open spec fn bitand_spec(self, rhs: &BigInt) -> BigInt { arbitrary() }
+}
+impl BitAnd<&BigInt> for &BigInt {
+    type Output = BigInt;
+//@ extract src/bigint/bits.rs :: impl BitAnd<&BigInt> for &BigInt :: fn bitand rules=R0,R3da,R3ca props=C07,C10 label=bigint_bitand_ref_ref
+    fn bitand(self, other: &BigInt) -> /*+*/(r: /*-*/BigInt/*+*/)/*-*/
+//+{
+        ensures r.wfi(), bits_rel(0, r.iv(), self.iv(), other.iv())
+//+}
+    {
+//+{
+        proof {
+            lemma_sgn_mul(self.sign, self.data.v()); lemma_sgn_mul(other.sign, other.data.v());
+            lemma_with_zero(0, other.iv()); lemma_with_zero(0, self.iv());
+            lemma_sgn_mul(NoSign, 0);
+            lemma_bits_rel_comm(0, self.iv(), other.iv());
+            lemma_pp_all(0, self.data, other.data);
+        }
+//+}
+        match (self.sign, other.sign) {
+            (NoSign, _) | (_, NoSign) => BigInt::ZERO,
+            (Plus, Plus) => BigInt::from(BitAnd::bitand(&self.data, &other.data)),
+            (Plus, Minus) => BitAnd::bitand(self.clone(), other),
+            (Minus, Plus) => BitAnd::bitand(other.clone(), self),
+            (Minus, Minus) => {
+                // forward to val-ref, choosing the larger to clone
+                if self.len() >= other.len() {
+                    BitAnd::bitand(self.clone(), other)
+                } else {
+                    BitAnd::bitand(other.clone(), self)
+                }
+            }
+        }
+    }
+//@ end
+}
+
+impl BitOrSpecImpl<&BigInt> for &BigInt {
+    open spec fn obeys_bitor_spec() -> bool { false }
+    open spec fn bitor_req(self, rhs: &BigInt) -> bool { self.wfi() && rhs.wfi() }
+    open spec fn bitor_spec(self, rhs: &BigInt) -> BigInt { arbitrary() }
+}
+impl BitOr<&BigInt> for &BigInt {
+    type Output = BigInt;
+//@ extract src/bigint/bits.rs :: impl BitOr<&BigInt> for &BigInt :: fn bitor rules=R0,R3do,R3co props=C07,C10 label=bigint_bitor_ref_ref
+    fn bitor(self, other: &BigInt) -> /*+*/(r: /*-*/BigInt/*+*/)/*-*/
+//+{
+        ensures r.wfi(), bits_rel(1, r.iv(), self.iv(), other.iv())
+//+}
+    {
+//+{
+        proof {
+            lemma_sgn_mul(self.sign, self.data.v()); lemma_sgn_mul(other.sign, other.data.v());
+            lemma_with_zero(1, other.iv()); lemma_with_zero(1, self.iv());
+            lemma_bits_rel_comm(1, self.iv(), other.iv());
+            lemma_pp_all(1, self.data, other.data);
+        }
+//+}
+        match (self.sign, other.sign) {
+            (NoSign, _) => other.clone(),
+            (_, NoSign) => self.clone(),
+            (Plus, Plus) => BigInt::from(BitOr::bitor(&self.data, &other.data)),
+            (Plus, Minus) => BitOr::bitor(other.clone(), self),
+            (Minus, Plus) => BitOr::bitor(self.clone(), other),
+            (Minus, Minus) => {
+                // forward to val-ref, choosing the smaller to clone
+                if self.len() <= other.len() {
+                    BitOr::bitor(self.clone(), other)
+                } else {
+                    BitOr::bitor(other.clone(), self)
+                }
+            }
+        }
+    }
+//@ end
+}
+
+impl NotSpecImpl for &BigInt {
+    open spec fn obeys_not_spec() -> bool { false }
+    open spec fn not_req(self) -> bool { self.wfi() }
+    open spec fn not_spec(self) -> BigInt { arbitrary() }
+}
+impl Not for &BigInt {
+    type Output = BigInt;
+//@ extract src/bigint.rs :: impl Not for &BigInt :: fn not rules=R0,R3dp,R3dm,R3ng props=C07,C04 label=bigint_not_ref
+    fn not(self) -> /*+*/(r: /*-*/BigInt/*+*/)/*-*/
+//+{
+        ensures r.wfi(), r.iv() == -self.iv() - 1, forall|k: nat| #[trigger] ibit(r.iv(), k) == !ibit(self.iv(), k)
+//+}
+    {
+//+{
+        proof {
+            lemma_sgn_mul(self.sign, self.data.v());
+            assert forall|k: nat| #[trigger] ibit(-self.iv() - 1, k) == !ibit(self.iv(), k) by { lemma_compl(self.iv(), k); }
+        }
+//+}
+        match self.sign {
+            NoSign => Neg::neg(BigInt::one()),
+            Plus => Neg::neg(BigInt::from(Add::add(&self.data, 1u32))),
+            Minus => BigInt::from(Sub::sub(&self.data, 1u32)),
+        }
+    }
+//@ end
+}
+
+/// the operations are commutative
+pub proof fn lemma_bits_rel_comm(op: int, x: int, y: int)
+    ensures forall|r: int| bits_rel(op, r, x, y) == bits_rel(op, r, y, x)
+{
+    assert forall|r: int| bits_rel(op, r, x, y) == bits_rel(op, r, y, x) by {
+        if bits_rel(op, r, x, y) { assert forall|k: nat| #[trigger] ibit(r, k) == bop(op, ibit(y, k), ibit(x, k)) by { } }
+        if bits_rel(op, r, y, x) { assert forall|k: nat| #[trigger] ibit(r, k) == bop(op, ibit(x, k), ibit(y, k)) by { } }
+    }
 }
 
 } // mod u
